@@ -246,6 +246,20 @@ Workload GenerateWorkload(Rng rng, int size_class, int force_kind) {
 // ----------------------------------------------------------- building ----
 namespace {
 
+// With explicit quantization the caller promises values inside the box
+// [origin, origin + range]; origin dimensions the caller did not supply are 0.
+// Float values of such attributes are shifted to be positive in every dimension.
+void ShiftIntoBox(const Workload &w, const AttDesc &d, uint8_t *val) {
+  if (d.dt != draco::DT_FLOAT32 || d.type < 0 || d.type > 4) return;
+  if (w.xq[d.type] <= 0 || w.qb[d.type] <= 0) return;
+  for (int c = 0; c < d.nc && c < 4; ++c) {
+    float f;
+    memcpy(&f, val + 4 * c, 4);
+    f += 70.f;
+    memcpy(val + 4 * c, &f, 4);
+  }
+}
+
 struct Tri {
   int v[3];
 };
@@ -588,8 +602,10 @@ std::unique_ptr<draco::PointCloud> BuildMesh(const Workload &w) {
       uint8_t val[3][16];
       memset(val, 0, sizeof(val));
       if (a == 0) {
-        for (int c = 0; c < 3; ++c)
+        for (int c = 0; c < 3; ++c) {
           WritePosition(d, &pos[3 * tris[f].v[c]], val[c]);
+          ShiftIntoBox(w, d, val[c]);
+        }
         mb.SetAttributeValuesForFace(ids[a],
                                      draco::FaceIndex(static_cast<uint32_t>(f)),
                                      val[0], val[1], val[2]);
@@ -597,6 +613,7 @@ std::unique_ptr<draco::PointCloud> BuildMesh(const Workload &w) {
       }
       if (d.mode == 2) {
         MakeValue(d, mix64(vseed + a, 0x10000000ull + f), nullptr, val[0]);
+        ShiftIntoBox(w, d, val[0]);
         mb.SetPerFaceAttributeValueForFace(
             ids[a], draco::FaceIndex(static_cast<uint32_t>(f)), val[0]);
         continue;
@@ -609,6 +626,7 @@ std::unique_ptr<draco::PointCloud> BuildMesh(const Workload &w) {
           if ((s & 3) == 0) key = s;
         }
         MakeValue(d, key, &pos[3 * tris[f].v[c]], val[c]);
+        ShiftIntoBox(w, d, val[c]);
       }
       mb.SetAttributeValuesForFace(ids[a],
                                    draco::FaceIndex(static_cast<uint32_t>(f)),
@@ -653,6 +671,7 @@ std::unique_ptr<draco::PointCloud> BuildCloud(const Workload &w) {
       } else {
         MakeValue(w.atts[a], mix64(vseed + a, src), p, val);
       }
+      ShiftIntoBox(w, w.atts[a], val);
       pb.SetAttributeValueForPoint(ids[a], draco::PointIndex(i), val);
     }
   }
@@ -716,7 +735,7 @@ void ApplyOptions(const Workload &w, draco::Encoder *enc) {
       for (int d = 0; d < 4; ++d) origin[d] = -64.f - t - d;
       enc->SetAttributeExplicitQuantization(
           static_cast<GeometryAttribute::Type>(t), w.qb[t], w.xq[t] > 4 ? 4 : w.xq[t],
-          origin, 256.f);
+          origin, 512.f);
     } else if (w.qb[t] > 0)
       enc->SetAttributeQuantization(static_cast<GeometryAttribute::Type>(t),
                                     w.qb[t]);
@@ -741,7 +760,7 @@ void ApplyOptions(const Workload &w, const draco::PointCloud &pc,
       float origin[4];
       for (int d = 0; d < 4; ++d) origin[d] = -64.f - t - d;
       enc->SetAttributeExplicitQuantization(i, w.qb[t], w.xq[t] > 4 ? 4 : w.xq[t],
-                                            origin, 256.f);
+                                            origin, 512.f);
     } else if (w.qb[t] > 0) {
       enc->SetAttributeQuantization(i, w.qb[t]);
     }
